@@ -518,6 +518,25 @@ func rulesC10(e *Engine, r *Report) {
 				"orig.prev is read after removeFile/unlink: by then it is nil", 1)
 		}
 	}
+	// ---------------------------------------------------------------- R10.11
+	r.Rule("R10.11", "the time order is the order of the times: in the comparator addFile searches with for oldest-first / newest-first tags the name decides only between files whose modification times are equal as times (time.Time.Equal of the two GetTime() values) - not equal to the second, which would let the name overrule up to a second of real difference")
+	if top := needFn(e, r, "R10.11", "queue.(*Tagged).addFile"); top != nil {
+		n := 0
+		for _, fn := range WithClosures(top) {
+			if fn == top {
+				continue
+			}
+			names := e.findInstrs(fn, "invoke(sts.Hashed.GetName)(§)", false)
+			if len(names) == 0 || len(e.findInstrs(fn, "invoke(sts.Hashed.GetTime)(§)", false)) == 0 {
+				continue
+			}
+			n++
+			cls := labeler(C("call(time.(Time).Equal)(invoke(sts.Hashed.GetTime)(§), invoke(sts.Hashed.GetTime)(§))", "sameTime"))
+			e.Guarded(r, "R10.11", e.ShortName(fn)+": the names are compared only for equal times", fn, only(names[0]), cls,
+				func(l LabelSet) bool { return l.Has("sameTime") }, "t0.Equal(t1) of the two files' GetTime()")
+		}
+		r.Min("R10.11", "time comparators in addFile", n, 1)
+	}
 }
 
 func rulesC12(e *Engine, r *Report) {
